@@ -101,8 +101,11 @@ def check_batch(o):
     X = np.array(o["X"], dtype=float)
     n, mean, C = _stats(o["stats"])
     centre = c["centre"]
-    models = [("PCAVectorModel", PCAVectorModel(X.copy(), centre=centre, inplace=False)),
+    arr = X.copy()
+    models = [("PCAVectorModel", PCAVectorModel(arr, centre=centre, inplace=False)),
               ("PCAVectorModel(inplace)", PCAVectorModel(X.copy(), centre=centre, inplace=True))]
+    if not np.array_equal(arr, X):
+        bad.append(("PCAVectorModel(inplace=False) modified the caller's data matrix", {}, None))
     if X.shape[1] % 2 == 0:
         models.append(("PCAModel", PCAModel([PointCloud(x.reshape(-1, 2)) for x in X], centre=centre)))
     # object-backed by images: a masked image whose d masked pixels are the features, and a plain one-row image
